@@ -49,6 +49,14 @@ def LAWS(family, **kw):
     return MC("laws-" + family, "MC_Laws", "MC_Laws_%s.cfg" % family, workers=12, **kw)
 
 
+# key layout (CloverKV): the laws for all names over a small alphabet, the reason ';' is reserved, and
+# the binding of the key constructors to the keys the code really uses
+KV_LAWS = MC("kv-laws", "MC_KV", "MC_KV.cfg", "MC_KV_thorough.cfg", workers=12, timeout=1800)
+KV_RESERVED = MC("kv-reserved", "MC_KV", "MC_KV_reserved.cfg", workers=4, expect_violation="Layout")
+KV_FIXEDLEN = MC("kv-fixedlen-prerepair", "MC_KV", "MC_KV_fixedlen.cfg", workers=2, expect_violation="FixedSplit")
+KV_KEYS = AUX("kv-keys", "keys", (150, 3000), chunk=150)
+
+
 def durability(ctx, st):
     """C05 (v): run a history of writes under strace and let TLC check the fsync-before-ack discipline."""
     import json, os, re, subprocess
@@ -141,6 +149,7 @@ PLANS["C06"] = {
         # multi-page collections: bulk operations, DropIndex / CreateIndex over hundreds of entries
         T("bulk", "bulk", (24, 240), ["InvAudit"], backends="bolt,badger", chunk=3, heap="6g"),
         EDG("edges", ["InvAudit"], states=(30, 0), reads=(1, 1), writes=(25, 60)),
+        KV_LAWS, KV_FIXEDLEN, KV_KEYS,
     ],
 }
 
@@ -180,6 +189,7 @@ PLANS["C13"] = {
     "stages": [
         T("catalog", "catalog", (60, 1500), ["InvC13"]),
         MC_PROPS,
+        KV_LAWS, KV_RESERVED, KV_KEYS,
     ],
 }
 
@@ -188,6 +198,7 @@ PLANS["C14"] = {
     "assumptions": L1_ASSUME,
     "stages": [
         T("indexcat", "indexcat", (60, 1500), ["InvC14"]),
+        KV_LAWS, KV_KEYS,
     ],
 }
 
@@ -387,4 +398,5 @@ WARM_MC = [LAWS(f) for f in ("values", "criteria", "norm", "paths")] + [MC_PROPS
            MC("plan-laws", "MC_Plan", "MC_Plan_planq.cfg", workers=12),
            MC("conc-bolt", "CloverConc", "MC_Conc_bolt.cfg", workers=12),
            MC("conc-badger", "CloverConc", "MC_Conc_badger.cfg", workers=12),
-           MC("conc-badger-prerepair", "CloverConc", "MC_Conc_badger_prefix.cfg", workers=12, expect_violation="Linearizable")]
+           MC("conc-badger-prerepair", "CloverConc", "MC_Conc_badger_prefix.cfg", workers=12, expect_violation="Linearizable"),
+           KV_LAWS, KV_RESERVED, KV_FIXEDLEN]
